@@ -24,7 +24,7 @@ pub fn def() -> PropertyDef {
     PropertyDef {
         id: "C12",
         level: "exploration",
-        props: |_| vec![Box::new(GlobalVariance) as Box<dyn DynProp>, Box::new(NoEligibleFrame) as Box<dyn DynProp>],
+        props: |_| vec![Box::new(GlobalVariance) as Box<dyn DynProp>, Box::new(NoEligibleFrame) as Box<dyn DynProp>, Box::new(GvSwitchedOff) as Box<dyn DynProp>],
         extra: no_extra,
         replay_custom: no_custom,
         assumptions: &[
@@ -297,6 +297,122 @@ impl Prop for NoEligibleFrame {
         let mut rep = Report::new();
         rep.nontrivial = true;
         rep.class(c.voice.class());
+        Ok(rep)
+    }
+}
+
+/// A copy of the bundled voice (or of a perturbed copy) in which the USE_GV flag of one or both GV
+/// streams is cleared while the GV_PDF / GV_TREE positions stay in the header: that stream is "a
+/// stream without GV".
+#[derive(Debug, Clone, Serialize)]
+pub struct OffCase {
+    pub perturbed: Option<usize>,
+    /// bit 0: spectrum, bit 1: log-F0
+    pub off_mask: usize,
+    pub labels: Vec<String>,
+    pub weights: Vec<f64>,
+}
+
+fn switched_off_voice(perturbed: Option<usize>, mask: usize) -> Result<std::sync::Arc<jbonsai::model::Voice>, Failure> {
+    use std::collections::HashMap;
+    use std::sync::{Arc, Mutex, OnceLock};
+    static CACHE: OnceLock<Mutex<HashMap<(Option<usize>, usize), Arc<jbonsai::model::Voice>>>> = OnceLock::new();
+    let m = CACHE.get_or_init(Default::default);
+    if let Some(v) = m.lock().unwrap().get(&(perturbed, mask)) {
+        return Ok(v.clone());
+    }
+    let mut bytes = match perturbed {
+        Some(k) => crate::engine_case::perturbed_bytes(k).to_vec(),
+        None => crate::bundled::bundled_bytes().to_vec(),
+    };
+    let names: Vec<String> = bundled_file_voice().streams.iter().map(|s| s.name.clone()).collect();
+    for (bit, name) in names.iter().enumerate().take(2) {
+        if mask & (1 << bit) != 0 {
+            let key = format!("USE_GV[{}]:1", name);
+            let Some(pos) = bytes.windows(key.len()).position(|w| w == key.as_bytes()) else {
+                return Err(Failure::new("harness", format!("bundled header has no {}", key)));
+            };
+            bytes[pos + key.len() - 1] = b'0';
+        }
+    }
+    let tmp = crate::voice::TempVoice(crate::voice::write_temp(&bytes, "c12off"));
+    let v = Arc::new(jbonsai::model::load_htsvoice_file(&tmp.0).map_err(|e| Failure::new("load-valid-voice", format!("a copy of the bundled voice with USE_GV cleared is rejected: {}", e)))?);
+    m.lock().unwrap().insert((perturbed, mask), v.clone());
+    Ok(v)
+}
+
+pub struct GvSwitchedOff;
+
+impl Prop for GvSwitchedOff {
+    type Case = OffCase;
+    fn name(&self) -> String {
+        "gv-switched-off".into()
+    }
+    fn rule(&self) -> String {
+        "copies of the bundled voice / its perturbed copies whose header clears USE_GV for the spectrum and/or the log-F0 stream (the GV_PDF / GV_TREE positions stay in the file); 3..40 corpus labels; two GV weights in [0.25,2]: a stream whose flag is cleared must be bitwise unaffected by its GV weight and equal the public MlpgAdjust solution with gv: None; the file must load. Non-trivial: always (a stream without GV that has GV data in the file)".into()
+    }
+    fn tape_len(&self, _: Tier) -> usize {
+        200
+    }
+    fn cases(&self, tier: Tier) -> u32 {
+        tier.pick(300, 6_000)
+    }
+    fn decode(&self, t: &mut Tape, _: Tier) -> OffCase {
+        let c = corpus();
+        let n = t.urange(3, 40);
+        let labels = if t.chance(0.6) {
+            let s = t.below(c.lines.len() - n);
+            c.lines[s..s + n].to_vec()
+        } else {
+            (0..n).map(|_| t.pick(&c.lines).clone()).collect()
+        };
+        let perturbed = if t.chance(0.5) { None } else { Some(t.below(NPERTURBED)) };
+        let off_mask = 1 + t.below(3);
+        let weights = vec![t.uniform(0.25, 2.0), *t.pick(&[1.0, 2.0, 0.25, 0.5, 1.5])];
+        OffCase { perturbed, off_mask, labels, weights }
+    }
+    fn check(&self, c: &OffCase) -> Result<Report, Failure> {
+        let voice = switched_off_voice(c.perturbed, c.off_mask)?;
+        let engine = crate::engine_case::engine_from_voices(vec![voice])?;
+        let cond = &engine.condition;
+        let labels = match Labels::load_from_strings(cond.get_sampling_frequency(), cond.get_fperiod(), c.labels.as_slice()) {
+            Ok(l) => l,
+            Err(e) => fail!("label-load", "{}", e),
+        };
+        let (durations, _, _) = expected_durations(&engine, &c.labels, false)?;
+        let models = Models::new(labels.labels(), &engine.voices, cond.get_interporation_weight());
+        let mut first: Option<Trajectories> = None;
+        for &w in &c.weights {
+            let mut e = engine.clone();
+            for i in 0..3 {
+                e.condition.set_gv_weight(i, w);
+            }
+            let tr = gen_traj(&e, c.labels.as_slice())?;
+            for si in 0..2usize {
+                if c.off_mask & (1 << si) == 0 {
+                    continue;
+                }
+                let got = if si == 0 { &tr.spectrum } else { &tr.lf0 };
+                let ms = models.model_stream(si);
+                let plain = ModelStream { vector_length: ms.vector_length, stream: ms.stream, gv: None, windows: ms.windows };
+                let want = MlpgAdjust::new(w, e.condition.get_msd_threshold(si), plain).create(&durations);
+                let same = want.len() == got.len()
+                    && want.iter().zip(got.iter()).all(|(x, y)| x.len() == y.len() && x.iter().zip(y).all(|(p, q)| p == q || ((p - q).abs() <= 1e-9 * p.abs().max(q.abs()).max(1e-6) && *p != NODATA && *q != NODATA)));
+                ensure!(same, "gv-nongv-stream", "stream {} has USE_GV cleared in the header but its trajectory differs from the plain maximum-likelihood solution at GV weight {}", si, w);
+                if let Some(f) = &first {
+                    let prev = if si == 0 { &f.spectrum } else { &f.lf0 };
+                    let same = prev.len() == got.len() && prev.iter().zip(got.iter()).all(|(x, y)| x.iter().zip(y).all(|(p, q)| p.to_bits() == q.to_bits()));
+                    ensure!(same, "gv-nongv-stream", "stream {} has USE_GV cleared in the header but its trajectory changes with the GV weight ({} vs {})", si, c.weights[0], w);
+                }
+            }
+            if first.is_none() {
+                first = Some(tr);
+            }
+        }
+        let mut rep = Report::new();
+        rep.nontrivial = true;
+        rep.class(format!("cleared:{}", ["", "spectrum", "lf0", "both"][c.off_mask]));
+        rep.class(if c.perturbed.is_some() { "perturbed" } else { "bundled" });
         Ok(rep)
     }
 }
